@@ -427,6 +427,32 @@ func runC09(c *core.Ctx, crashes bool) {
 			c.Violate("C09/lock-without-packet-or-packet-without-lock/mt", "%s block %d: %d MT units left user hands but packets announce %d", n.Name, rec.Height, leftMT, wantMT[""])
 		}
 	}
+	// "no reuse" across a restart from the chain's own exported genesis: the re-imported chain
+	// continues every pair's numbering where the exporting chain stopped
+	c.Step("c09-genesis-restart")
+	X := w.Nodes[ch.Int(len(w.Nodes))]
+	if X.Down {
+		c.Check(X.Restart())
+	}
+	sh, err := X.ExportAndReimport()
+	c.Check(err)
+	rec0, err := w.Block(X, nil, world.NoCrash)
+	c.Check(err)
+	_, err = sh.ApplyRecorded(rec0)
+	c.Check(err)
+	w.Stats.Inc("genesis-restart")
+	cpX := e.PM.On(X.Name)
+	for _, pr := range sortedPairs(cpX.SendSeq) {
+		if pr.Src != X.Name {
+			continue
+		}
+		want := uint64(len(cpX.SendSeq[pr]) + 1)
+		if got := sh.NextSeqSend(pr.Src, pr.Dst); got != want {
+			c.Violate("C09/sequence-reuse-after-genesis-restart", "%s restarted from its exported genesis would give the next packet to %s sequence %d, but %d packets were already sent (next must be %d)",
+				X.Name, pr.Dst, got, want-1, want)
+		}
+		w.Stats.Inc("probe-restart-sequence-checked")
+	}
 	w.Stats.Add("sends-ok", sends)
 	w.Stats.Add("sends-failing-txs", failing)
 	c.Nontrivial = sends >= 5 && failing >= 2
